@@ -117,9 +117,21 @@ def ty(t):
     if t.startswith("Dict "):
         k, v = split_dict(t)
         return f"PyRt.Dict {ty_arg(k)} {ty_arg(v)}"
+    if t.startswith("Table "):
+        k, v = split_table(t)
+        return f"List ({ty_arg(k)} × {ty_arg(v)})"
+    if "|" in t:
+        a, b = t.split("|")
+        return f"Sum {ty_arg(a)} {ty_arg(b)}"
     if t == "None":
         return "Unit"
     return t
+
+
+def split_table(t):
+    """`Table K; V`: a dict display as an association list in display order"""
+    k, v = t[len("Table "):].split(";")
+    return k.strip(), v.strip()
 
 
 def ty_arg(t):
@@ -201,6 +213,12 @@ class Translator:
             if v.typ.startswith("Option "):
                 self.bad(node, f"type {v.typ} where {typ} is expected")
             return f"(some {self.coerce(v, inner, node)})"
+        if "|" in typ:
+            a, b = typ.split("|")
+            if is_int(v.typ) and a == "Int":
+                return f"(Sum.inl {self.to_int(v)} : {ty(typ)})"
+            if v.typ == b:
+                return f"(Sum.inr {v.term} : {ty(typ)})"
         if v.typ == "EmptyList" and typ.startswith("List "):
             return f"([] : {ty(typ)})"
         if v.typ == "EmptyDict" and typ in self.spec.get("empty_dict", {}):
@@ -249,6 +267,11 @@ class Translator:
         return V(v.term, v.typ, v.nn, v.lit)
 
     def e_Attribute(self, node, env):
+        if isinstance(node.value, ast.Name) and node.value.id in env:
+            x = env[node.value.id]
+            f = self.spec.get("attr_funcs", {}).get((x.typ, node.attr))
+            if f is not None:
+                return V(f"({f[0]} {x.term})", f[1])
         self.bad(node, "attribute read that the spec does not list as a place or constant")
 
     def e_Tuple(self, node, env):
@@ -389,6 +412,11 @@ class Translator:
             self.bad(node, f"`is` between {a.typ} and {b.typ}")
         if o in ("Eq", "NotEq"):
             rel = "=" if o == "Eq" else "≠"
+            # a value that is an int or a tuple: equal to an int iff it is that int (a tuple never equals an int)
+            if "|" in a.typ and is_int(b.typ):
+                return f"(decide ({a.term} {rel} {self.coerce(b, a.typ, node)}))"
+            if "|" in b.typ and is_int(a.typ):
+                return f"(decide ({self.coerce(a, b.typ, node)} {rel} {b.term}))"
             if is_int(a.typ) and is_int(b.typ):
                 if a.typ == b.typ:
                     return f"(decide ({a.term} {rel} {b.term}))"
@@ -571,12 +599,36 @@ class Translator:
                     self.bad(node, f"to_bytes on {n.typ}, {k.typ}")
                 return V(self.hoist(f"PyRt.toBytesE {self.to_int(n)} {self.to_int(k)}", "Bytes", node), "Bytes")
             self.bad(node, "to_bytes other than (length, 'big'[, signed=False])")
+        if isinstance(f, ast.Attribute) and f.attr in ("keys", "get") and not kw:
+            t = self.expr(f.value, env)
+            if t.typ.startswith("Table "):
+                kt, vt = split_table(t.typ)
+                if f.attr == "keys" and not node.args:
+                    return V(f"(PyRt.tableKeys {t.term})", f"List {kt}" if " " not in kt else f"List ({kt})")
+                if f.attr == "get" and len(node.args) == 1:
+                    k = self.expr(node.args[0], env)
+                    vo = f"Option {vt}" if " " not in vt else f"Option ({vt})"
+                    if "|" in k.typ and k.typ.split("|")[1] == kt:
+                        return V(f"(PyRt.tableGetU {t.term} {k.term})", vo)      # an int is no key of this table
+                    return V(f"(PyRt.tableGet {t.term} {self.coerce(k, kt, node)})", vo)
+        if isinstance(f, ast.Call) and "class_call" in self.spec and not kw:
+            # `<looked-up class>(args)`: None is not callable (TypeError); a class runs its translated constructor
+            cc = self.spec["class_call"]
+            c = self.expr(f, env)
+            if c.typ != cc["type"] or len(node.args) != len(cc["args"]):
+                self.bad(node, f"call of a value of type {c.typ}")
+            args = [self.coerce(self.expr(a, env), t, node) for a, t in zip(node.args, cc["args"]) if t is not None]
+            if any(t is None and not isinstance(a, ast.Name) for a, t in zip(node.args, cc["args"])):
+                self.bad(node, "an ignored argument that is not a plain name")
+            return V(self.hoist(f"PyRt.callClass {c.term} (fun py_c => {cc['lean']} py_c " + " ".join(args) + ")", cc["ret"], node), cc["ret"])
         calls = self.spec.get("calls", {})
         if fname in calls and not kw:
             c = calls[fname]
             if len(node.args) != len(c["args"]):
                 self.bad(node, f"call of `{fname}` with {len(node.args)} arguments, the spec knows {len(c['args'])}")
-            args = [self.coerce(self.expr(a, env), t, node) for a, t in zip(node.args, c["args"])]
+            if any(t is None and not isinstance(a, ast.Name) for a, t in zip(node.args, c["args"])):
+                self.bad(node, "an ignored argument that is not a plain name")
+            args = [self.coerce(self.expr(a, env), t, node) for a, t in zip(node.args, c["args"]) if t is not None]
             term = f"{c['lean']} " + " ".join(args)
             if c.get("raises"):
                 return V(self.hoist(term, c["ret"], node), c["ret"])
@@ -628,8 +680,11 @@ class Translator:
         """env after `target = v`, and the `let` line"""
         env = dict(env)
         if isinstance(target, ast.Name):
+            decl = self.spec.get("locals", {}).get(target.id)
+            if decl is not None:
+                v = V(self.coerce(v, decl, node), decl, v.nn and decl == "Int")
             if v.typ in ("NoneType", "EmptyDict", "EmptyList"):
-                self.bad(node, "a local of unknown type (assigned None, {} or [])")
+                self.bad(node, "a local of unknown type (assigned None, {} or []): declare it in the spec's `locals`")
             n = lname(target.id)
             if target.id in self.reserved or not (lname_ok(target.id) or target.id in self.synthetic):
                 self.bad(node, f"local `{target.id}` clashes with a Lean name of the spec or of the emitted text")
@@ -731,6 +786,19 @@ class Translator:
         return None
 
     def s_Expr(self, st, rest, env, frame):
+        c0 = st.value
+        if (isinstance(c0, ast.Call) and isinstance(c0.func, ast.Attribute) and c0.func.attr == "append" and len(c0.args) == 1
+                and not c0.keywords and isinstance(c0.func.value, ast.Name) and c0.func.value.id in env
+                and env[c0.func.value.id].typ.startswith("List ") and c0.func.value.id in self.spec.get("locals", {})):
+            # a list local this function created (`x = []`, declared in the spec's `locals`): append rebinds it
+            x = env[c0.func.value.id]
+            v, hs = self.eval(c0.args[0], env)
+
+            def inner():
+                new = V(f"({x.term} ++ [{self.coerce(v, elem_type(x.typ), st)}])", x.typ)
+                env2, line = self.bind(c0.func.value, new, env, st)
+                return line + "\n" + self.block(rest, env2, frame)
+            return self.with_hoists(hs, env, frame, inner)
         ap = self.append_call(st)
         if ap is not None:
             pk, arg = ap
@@ -802,7 +870,7 @@ class Translator:
             elif isinstance(s, ast.Expr) and self.key(s) in self.actions and "__acts" not in acc:
                 acc.append("__acts")
             elif (isinstance(s, ast.Expr) and isinstance(s.value, ast.Call) and isinstance(s.value.func, ast.Attribute)
-                  and s.value.func.attr == "extend" and isinstance(s.value.func.value, ast.Name)):
+                  and s.value.func.attr in ("extend", "append") and isinstance(s.value.func.value, ast.Name)):
                 if s.value.func.value.id not in acc:
                     acc.append(s.value.func.value.id)
             elif self.append_call(s) is not None and ("place", self.append_call(s)[0]) not in acc:
